@@ -326,17 +326,52 @@ SITES = {
 }
 
 
-def build(src_expr, aliases, site, vn=(), base=0):
-    """vn[i] = variable name of alias step i ("" = the default name); base shifts the step numbers"""
+# History of a name (added after seed C18-5): the variable an alias step binds was bound BEFORE (or is bound
+# later in the source, or in a sibling scope) by another construct to something harmless -- a macro of the
+# template, the safe method obj.fine -- and possibly called there.  What a name held earlier, and by which kind of
+# binding, says nothing about what it holds when the call happens: SandboxNames.tla (the gate is asked about the
+# value of the innermost live binding at the time of the call), SandboxGate.CallGate (decides by the object).
+PRIORS = {
+    "macro": "{%% macro %(v)s() %%}m{%% endmacro %%}",
+    "macro_called": "{%% macro %(v)s() %%}m{%% endmacro %%}{{ %(v)s() }}",
+    "macro_args": "{%% macro %(v)s(x=1) %%}{{ x }}{%% endmacro %%}{{ %(v)s(2) }}",
+    "macro_nested": "{%% if true %%}{%% macro %(v)s() %%}m{%% endmacro %%}{%% endif %%}",
+    "macro_call_block": "{%% macro %(v)s() %%}{{ caller() }}{%% endmacro %%}{%% call %(v)s() %%}x{%% endcall %%}",
+    "set_safe": "{%% set %(v)s = obj.fine %%}{{ %(v)s() }}",
+    "with_safe": "{%% with %(v)s = obj.fine %%}{{ %(v)s() }}{%% endwith %%}",
+    "loop_safe": "{%% for %(v)s in [obj.fine] %%}{{ %(v)s() }}{%% endfor %%}",
+    "param_safe": "{%% macro pm(%(v)s) %%}{{ %(v)s() }}{%% endmacro %%}{{ pm(obj.fine) }}",
+}
+# where the earlier binding stands: at the start of the template, just before the step that rebinds the name
+# (in whatever scope that step is), or after everything else (the name is a macro's only further down the source)
+PRIOR_POS = ["top", "here", "after"]
+
+
+def build(src_expr, aliases, site, vn=(), base=0, prior=()):
+    """vn[i] = variable name of alias step i ("" = the default name); base shifts the step numbers;
+    prior = (kind, position, step): the variable of alias step `step` has a history (PRIORS)"""
+    pre = post = ""
+
     def at(i, e):
+        nonlocal pre, post
         if i == len(aliases):
             t = SITES[site]
             return t % ((e,) * t.count("%s"))
         default, tmpl = ALIASES[aliases[i]]
         n = base + i + 1
         v = (vn[i] if i < len(vn) and vn[i] else default % n) if default is not None else None
-        return tmpl(e, lambda w: at(i + 1, w), n, v)
-    return at(0, src_expr)
+        out = tmpl(e, lambda w: at(i + 1, w), n, v)
+        if prior and prior[2] == i and v is not None:
+            p = PRIORS[prior[0]] % {"v": v}
+            if prior[1] == "here":
+                out = p + out
+            elif prior[1] == "top":
+                pre = p
+            else:
+                post = p
+        return out
+    body = at(0, src_expr)
+    return pre + body + post
 
 
 def pick_names(rnd, aliases):
@@ -432,6 +467,26 @@ def gen_cases(tier, seed):
                     modes = [True] if kind == "async" else ([False, True] if not quick else [rnd.random() < 0.25])
                     for is_async in modes:
                         cases.append((name, kind, s, a, site, is_async, "denyname" if name == "denied" else "default", vn))
+    # -- history of a name: every construct that binds a variable x every earlier binding of that name x where
+    # the earlier binding stands x a marked and an arbitrary callable (quick: one sampled site, thorough: 6)
+    for binder in NAMEABLE:
+        for pk in PRIORS:
+            for pos in PRIOR_POS:
+                picks = [rnd.choice(UNSAFE_BASIC), rnd.choice(all_names)[0]]
+                for k, name in enumerate(picks):
+                    kind = KIND[name]
+                    for site in rnd.sample(list(SITES), 1 if quick else 6):
+                        s = rnd.choice(list(sources(name, kind)))
+                        a, step = (binder,), 0
+                        if rnd.random() < 0.3:          # the rebinding step is one of two
+                            other = rnd.choice(list(ALIASES))
+                            a, step = ((binder, other), 0) if rnd.random() < 0.5 else ((other, binder), 1)
+                            if not seq_allowed(a):
+                                a, step = (binder,), 0
+                        modes = [True] if kind == "async" else ([False, True] if not quick else [rnd.random() < 0.25])
+                        for is_async in modes:
+                            pol = "denyname" if name == "denied" else ("denyobj" if name in DENY_LIST and k else "default")
+                            cases.append((name, kind, s, a, site, is_async, pol, (), (pk, pos, step)))
     cases += gen_sessions(tier, rnd)
     return cases
 
@@ -692,7 +747,8 @@ def run_case(case):
     if case[0] == "session":
         return run_session(case)
     core.use_repo()
-    name, kind, s, aliases, site, is_async, policy, vn = case
+    name, kind, s, aliases, site, is_async, policy, vn = case[:8]
+    prior = tuple(case[8]) if len(case) > 8 else ()
     rec = su.Recorder()
     deny = []
     env = su.make_env(rec, policy=policy, deny=deny, enable_async=is_async)
@@ -707,7 +763,7 @@ def run_case(case):
         expr = vn[0]
     else:
         expr = sources(name, kind)[s]
-    src = build(expr, aliases, site, vn[1:])
+    src = build(expr, aliases, site, vn[1:], prior=prior)
     with warnings.catch_warnings():
         warnings.simplefilter("ignore")
         outcome, text = su.render(env, src, ctx, is_async)
@@ -749,6 +805,7 @@ def run(ck):
     stats["renders_after_first"] = sum(1 for t in traces for e in t["ev"] if e["e"] == "begin")
     stats["refused_after_grant"] = {}
     stats["named_variables"] = {}
+    stats["name_history"] = {}         # earlier binding of the called name -> cases whose call reached the gate
     for c, t in zip(cases, traces):
         if c[0] == "session":
             seen_ok = False
@@ -758,6 +815,11 @@ def run(ck):
                 elif e["e"] == "callgate" and seen_ok:
                     stats["refused_after_grant"][c[1]] = stats["refused_after_grant"].get(c[1], 0) + 1
         else:
+            if len(c) > 8:
+                i = NAMES_.index(c[0]) + 1
+                for k in (c[8][0], c[8][1], c[3][c[8][2]]):
+                    stats["name_history"][k] = stats["name_history"].get(k, 0) + (
+                        1 if any(e["e"] == "callgate" and e["v"] == i for e in t["ev"]) else 0)
             for v in c[7]:
                 if v:
                     stats["named_variables"][v] = stats["named_variables"].get(v, 0) + (
@@ -776,6 +838,8 @@ def run(ck):
             raise core.MachineryError(f"vacuous sessions: no refusal after a grant: {stats['refused_after_grant']}")
         if any(not stats["named_variables"].get(v) for v in ENGINE_NAMES):
             raise core.MachineryError(f"vacuous name sweep: {stats['named_variables']}")
+        if any(not stats["name_history"].get(k) for k in list(PRIORS) + PRIOR_POS + NAMEABLE):
+            raise core.MachineryError(f"vacuous name histories: {stats['name_history']}")
     for idx, stuck in rejected:
         case = cases[idx]
         t, src, text = results[idx]
@@ -795,7 +859,7 @@ def run(ck):
                          {"kind": "unsafe-callable-session", "theme": theme, "event": ev["e"], "policy": policy,
                           "render": renders[r]})
             continue
-        name, kind, s, aliases, site, is_async, policy, vn = case
+        name, kind, s, aliases, site, is_async, policy, vn = case[:8]
         ck.violation({"kind": "call", "case": list(case), "src": src, "events": t["ev"], "stuck": stuck, "output": text},
                      f"sandbox ({'async' if is_async else 'sync'}, policy {policy}): `{src}` with callable {name} "
                      f"({kind}, marks {t['callables'][NAMES_.index(name)]}): {what}; events "
@@ -840,7 +904,7 @@ def replay(ck, rec):
     c = rec["case"]["case"]
     if c[0] != "session":
         c[3] = tuple(c[3])
-        c[7:] = [tuple(c[7]) if len(c) > 7 else ()]
+        c[7:] = [tuple(c[7]) if len(c) > 7 else ()] + ([tuple(c[8])] if len(c) > 8 else [])
     t, src, text = run_case(tuple(c))
     if su.validate(ck, PID, [t], "replay"):
         ck.violation(rec["case"], "trace still rejected by SandboxTrace", rec.get("fingerprint"))
